@@ -185,8 +185,13 @@ def run(ctx):
         def job(cx):
             cx.write_cfg(sd, name + ".cfg", "Spec", c, STRICT_INV)
             r = cx.tlc_check(sd, "QueryFanout", name + ".cfg", workers=workers, timeout=timeout, coverage=coverage)
-            if coverage and r.get("zero_coverage"):
-                raise Infra("actions never taken in %s: %s" % (name, r["zero_coverage"]))
+            if coverage:
+                # TLC also prints interim coverage (all zero at first) when a run takes longer than a minute:
+                # only the last report counts
+                last = r["out"].rsplit("The coverage statistics at", 1)[-1]
+                zero = cx._zero_coverage(last)
+                if zero:
+                    raise Infra("actions never taken in %s: %s" % (name, zero))
             return r
         return job
 
@@ -307,25 +312,33 @@ def validate_traces(ctx, sd, path, by_id, go, base_input):
     if not groups:
         raise Infra("empty trace")
 
-    def check(nn, ns, items, name):
+    sds = {k: ctx.spec_dir("queryfanout") for k in groups}      # one spec directory per group: they run side by side
+
+    def check(nn, ns, items, name, cx=None):
+        cx = cx or ctx
+        sdg = sds[(nn, ns)]
         cfg = "T%d%d.cfg" % (nn, ns)
-        ctx.write_cfg(sd, cfg, "TSpec", consts(nn, ns, ["select"], ASIS), ["TraceInv"], extra="POSTCONDITION Post")
+        cx.write_cfg(sdg, cfg, "TSpec", consts(nn, ns, ["select"], ASIS), ["TraceInv"], extra="POSTCONDITION Post")
         p = os.path.join(ctx.scratch, name)
         with open(p, "w") as fh:
             for it in items:
                 fh.write(it[2] + "\n")
-        return ctx.tlc_trace(sd, "QueryFanoutTrace", p, cfg=cfg, timeout=1200)
+        return cx.tlc_trace(sdg, "QueryFanoutTrace", p, cfg=cfg, timeout=1200)
+
+    for k in groups:
+        groups[k] = normalize(groups[k], by_id)
+    keys = list(groups)
+    firstpass = dict(zip(keys, par(ctx, [(lambda cx, k=k: check(k[0], k[1], groups[k], "trace-%d-%d-0.ndjson" % k, cx)) for k in keys])))
 
     first = True
     for (nn, ns), items in groups.items():
-        items = normalize(items, by_id)
         rejected = []
         validated = False
         for attempt in range(5):
             if not items:
                 validated = True
                 break
-            r = check(nn, ns, items, "trace-%d-%d-%d.ndjson" % (nn, ns, attempt))
+            r = firstpass.pop((nn, ns), None) or check(nn, ns, items, "trace-%d-%d-%d.ndjson" % (nn, ns, attempt))
             if r["accepted"]:
                 validated = True
                 break
